@@ -2171,7 +2171,11 @@ func genIssuance(c *ctx, emit func(ev)) {
 			}
 		}
 		// histories on ONE issuer object: answered requests followed by replays of their parts
-		for rep := 0; rep < c.tierInt(4, 16); rep++ {
+		seqReps := c.tierInt(4, 16)
+		if seqReps > 240 { // (these histories are long and full of answered requests: the depth factor of C07 is calibrated on cheap refusals)
+			seqReps = 240
+		}
+		for rep := 0; rep < seqReps; rep++ {
 			steps := []any{ev{"kind": "Id"}, ev{"kind": "ReplaySame"}, ev{"kind": "ReplayEncOtherKey"}, ev{"kind": "Id"},
 				ev{"kind": "ReplayEncFlipped", "bit": r.Intn(2000)}, ev{"kind": "Flip", "f": "sig", "bit": r.Intn(768)}, ev{"kind": "Id"},
 				ev{"kind": "Unregistered", "variant": "long"}, ev{"kind": "Unregistered", "variant": "empty"}, ev{"kind": "Id"},
